@@ -39,25 +39,89 @@ pub fn labels_json<'a, I: Iterator<Item = &'a Label>>(it: I) -> Value {
 /// Exercise a returned name: iterate both ways, flatten, compare with
 /// itself, hash, display, walk the suffixes.  Returns the labels.
 pub fn use_name(n: &ParsedName<&[u8]>) -> Value {
+    use domain::base::cmp::CanonicalOrd;
     let labels = labels_json(n.iter());
+    let lv: Vec<Vec<u8>> = n.iter().filter(|l| !l.is_root()).map(|l| l.as_slice().to_vec()).collect();
     let fwd = n.iter().count();
     let back = n.iter().rev().count();
     assert_eq!(fwd, back, "label count differs by direction");
     assert_eq!(n.label_count(), fwd);
+    let rev: Vec<Vec<u8>> = n.iter().rev().filter(|l| !l.is_root()).map(|l| l.as_slice().to_vec()).collect();
+    assert!(rev.iter().rev().eq(lv.iter()), "reverse iteration yields other labels");
     let flat: domain::base::Name<Vec<u8>> = n.to_name();
     assert!(n == &flat, "flattened name differs");
     assert_eq!(usize::from(n.compose_len()), flat.as_slice().len());
     assert_eq!(n.cmp(n), std::cmp::Ordering::Equal);
+    assert_eq!(n.canonical_cmp(n), std::cmp::Ordering::Equal);
+    assert_eq!(n.name_cmp(&flat), std::cmp::Ordering::Equal);
+    assert_eq!(n.composed_cmp(&flat), std::cmp::Ordering::Equal);
+    assert_eq!(n.lowercase_composed_cmp(&flat), flat.lowercase_composed_cmp(n).reverse());
+    assert!(n.name_eq(&flat) && n.starts_with(&flat) && n.ends_with(&flat));
+    assert!(n.ends_with(&domain::base::Name::root_slice()));
+    assert_eq!(n.is_root(), lv.is_empty());
+    assert!(n.last().is_root());
+    assert_eq!(n.first().as_slice(), lv.first().map(|x| x.as_slice()).unwrap_or(&[]));
+    assert_eq!(n.rrsig_label_count() as usize, lv.len() - usize::from(lv.first().map(|l| l == b"*").unwrap_or(false)));
     let mut h = DefaultHasher::new();
     n.hash(&mut h);
     let _ = h.finish();
     let s = format!("{}", n);
-    let _ = format!("{:?}", n);
+    let _ = format!("{:?} {}", n, n.fmt_with_dot());
     let _ = s.len();
-    let suffixes = n.iter_suffixes().count();
-    assert_eq!(suffixes, fwd);
-    let _ = n.first();
     let _ = n.is_compressed();
+    if let Some(f) = n.as_flat_slice() {
+        assert_eq!(f, flat.as_slice(), "flat slice differs from the flattened name");
+    }
+    let mut composed: Vec<u8> = vec![];
+    n.compose(&mut composed).unwrap();
+    assert_eq!(composed, flat.as_slice());
+    let mut canon: Vec<u8> = vec![];
+    n.compose_canonical(&mut canon).unwrap();
+    assert_eq!(canon, flat.as_slice().to_ascii_lowercase());
+    let _ = (n.to_vec(), n.to_cow(), n.to_canonical_name::<Vec<u8>>());
+    // the stepping API: every suffix is the tail of the label list
+    let wire_of = |ls: &[Vec<u8>]| {
+        let mut w = vec![];
+        for l in ls {
+            w.push(l.len() as u8);
+            w.extend(l);
+        }
+        w.push(0);
+        w
+    };
+    let mut k = 0;
+    for sfx in n.iter_suffixes() {
+        let got: domain::base::Name<Vec<u8>> = sfx.to_name();
+        assert_eq!(got.as_slice(), wire_of(&lv[k.min(lv.len())..]), "iter_suffixes: wrong suffix");
+        k += 1;
+    }
+    assert_eq!(k, fwd, "iter_suffixes: wrong number of suffixes");
+    let mut p = *n;
+    let mut depth = 0;
+    loop {
+        let cur: domain::base::Name<Vec<u8>> = p.to_name();
+        assert_eq!(cur.as_slice(), wire_of(&lv[depth..]), "parent(): wrong name");
+        assert_eq!(usize::from(p.compose_len()), cur.as_slice().len());
+        if !p.parent() {
+            break;
+        }
+        depth += 1;
+        assert!(depth <= lv.len(), "parent() does not end");
+    }
+    assert_eq!(depth, lv.len());
+    let mut q = *n;
+    let mut i = 0;
+    while let Some(first) = q.split_first() {
+        let mut w = vec![lv[i].len() as u8];
+        w.extend(&lv[i]);
+        assert_eq!(first.as_slice(), &w[..], "split_first(): wrong label");
+        i += 1;
+        assert!(i <= lv.len());
+    }
+    assert_eq!(i, lv.len());
+    assert!(q.is_root());
+    let r = n.ref_octets();
+    assert_eq!(r.label_count(), fwd);
     labels
 }
 
@@ -521,6 +585,34 @@ pub fn old_projection(m: &[u8], starts: &[usize], slw: &mut SliceProbe, predicte
         let mut h = DefaultHasher::new();
         format!("{}", msg.display_dig_style()).hash(&mut h);
         let _ = msg.get_last_additional::<AllRecordData<_, ParsedName<_>>>().is_some();
+        let _ = msg.get_last_additional::<domain::rdata::A>().is_some();
+        let _ = msg.get_last_additional::<domain::base::opt::Opt<_>>().is_some();
+        // every other public read-side method of Message
+        let _ = (msg.is_error(), msg.no_error(), msg.header_section(), msg.as_slice().len(), msg.as_octets().len());
+        let _ = (msg.for_slice().header_counts(), msg.for_slice_ref().is_xfr());
+        let _ = (msg.zone().count(), msg.prerequisite().is_ok(), msg.update().is_ok());
+        let _ = (msg.first_question().is_some(), msg.qtype(), msg.sole_question().is_ok(), msg.opt_rcode());
+        let _ = msg.contains_answer::<AllRecordData<_, ParsedName<_>>>();
+        for sec in [msg.answer(), msg.authority(), msg.additional()].into_iter().flatten() {
+            let _ = sec.into_records::<AllRecordData<_, ParsedName<_>>>().take(100_000).map(|r| r.is_ok()).count();
+            let _ = sec.limit_to_in::<domain::rdata::A>().take(100_000).count();
+            let _ = sec.limit_to::<AllRecordData<_, ParsedName<_>>>().unwrap().pos();
+        }
+        // copy_records into a fresh builder (value or error)
+        {
+            use domain::base::message_builder::MessageBuilder;
+            let target = MessageBuilder::new_vec().answer();
+            let _ = msg
+                .copy_records(target, |rr| rr.into_record::<AllRecordData<_, ParsedName<_>>>().ok().flatten())
+                .is_ok();
+        }
+        // remove_last_additional on a copy (documented to panic without one)
+        if msg.header_counts().arcount() > 0 {
+            let mut copy = Message::from_octets(m.to_vec()).unwrap();
+            copy.remove_last_additional();
+            let _ = copy.additional().map(|s| s.count());
+            let _ = copy.get_last_additional::<domain::rdata::A>().is_some();
+        }
         if let Ok(an) = msg.answer() {
             for r in an.limit_to::<AllRecordData<_, ParsedName<_>>>() {
                 if let Ok(r) = r {
@@ -625,7 +717,7 @@ impl SliceProbe {
         }
         let arc = Arc::new(m.to_vec());
         self.tx.as_ref().unwrap().send((arc, start)).expect("slice worker");
-        let wait = if predicted_hang { 3 } else { 60 };
+        let wait = if predicted_hang { 3 } else { 10 };
         match self.rx.as_ref().unwrap().recv_timeout(Duration::from_secs(wait)) {
             Ok(v) => v,
             Err(_) => {
@@ -636,6 +728,87 @@ impl SliceProbe {
             }
         }
     }
+}
+
+//------------ watchdog around whole battery calls ------------------------------------
+
+pub static SLICE_HANGS: std::sync::atomic::AtomicU64 = std::sync::atomic::AtomicU64::new(0);
+pub static SLICE_SKIPPED: std::sync::atomic::AtomicU64 = std::sync::atomic::AtomicU64::new(0);
+
+pub type CaseFn = Box<dyn FnMut(&Value, &Value) -> Value + Send>;
+
+/// Runs every case on a worker thread with a deadline: code under test that
+/// never returns is an observation (`{"hang": true}`), not a stuck harness.
+/// A worker that missed its deadline is abandoned (it cannot be killed) and
+/// replaced; after `max_hangs` such workers the remaining cases are not
+/// executed any more (`{"not_executed_after_hangs": true}`).
+pub struct Watchdog {
+    make: fn() -> CaseFn,
+    tx: Option<Sender<(Value, Value)>>,
+    rx: Option<Receiver<Value>>,
+    pub hangs: u32,
+    pub max_hangs: u32,
+    pub deadline: Duration,
+}
+
+impl Watchdog {
+    pub fn new(make: fn() -> CaseFn, secs: u64) -> Self {
+        Watchdog { make, tx: None, rx: None, hangs: 0, max_hangs: 3, deadline: Duration::from_secs(secs) }
+    }
+    fn spawn(&mut self) {
+        let (tx, wrx) = channel::<(Value, Value)>();
+        let (wtx, rx) = channel::<Value>();
+        let make = self.make;
+        std::thread::Builder::new()
+            .stack_size(64 << 20)
+            .spawn(move || {
+                let mut f = make();
+                while let Ok((input, dev)) = wrx.recv() {
+                    let r = catch_unwind(AssertUnwindSafe(|| f(&input, &dev))).unwrap_or(json!({"panic": true}));
+                    if wtx.send(r).is_err() {
+                        break;
+                    }
+                }
+            })
+            .expect("spawn worker");
+        self.tx = Some(tx);
+        self.rx = Some(rx);
+    }
+    pub fn call(&mut self, input: &Value, dev: &Value) -> Value {
+        if self.hangs >= self.max_hangs {
+            return json!({"not_executed_after_hangs": true});
+        }
+        if self.tx.is_none() {
+            self.spawn();
+        }
+        if self.tx.as_ref().unwrap().send((input.clone(), dev.clone())).is_err() {
+            self.tx = None;
+            return json!({"panic": true});
+        }
+        match self.rx.as_ref().unwrap().recv_timeout(self.deadline) {
+            Ok(v) => v,
+            Err(_) => {
+                self.hangs += 1;
+                self.tx = None;
+                self.rx = None;
+                json!({"hang": true})
+            }
+        }
+    }
+}
+
+/// the C01 battery as a watchdog case: {"m": octets, "starts": offsets}
+pub fn make_proj_case() -> CaseFn {
+    let mut slw = SliceProbe::new();
+    Box::new(move |input: &Value, dev: &Value| {
+        let m = bytes_of(&input["m"]);
+        let starts = usizes_of(&input["starts"]);
+        let ph = predicted_hangs(dev, starts.len());
+        let v = old_projection_twice(&m, &starts, &mut slw, &ph);
+        SLICE_HANGS.store(slw.hangs as u64, std::sync::atomic::Ordering::Relaxed);
+        SLICE_SKIPPED.store(slw.skipped, std::sync::atomic::Ordering::Relaxed);
+        v
+    })
 }
 
 //------------ component-wise classification ---------------------------------------
